@@ -21,6 +21,7 @@ def streams(rng, tier, seed):
     n = 200 if tier == "quick" else 5000
     progs = [ec.gen_flat(rng, sched=(i % 4 == 0)) for i in range(n)]
     progs += [ec.gen_nscript(rng) for _ in range(n // 4)]       # native scheduler node held back by the readiness gate
+    progs += [ec.gen_sigpassive(rng) for _ in range(n // 4)]    # signature-level passive input + wiring-time passive markers on one node
     return [ec.engine_stream("engine-activation", progs)] + act.streams(rng, tier, seed)
 
 
